@@ -39,15 +39,22 @@ ASSUMPTIONS = [
     "customers by id), required_vehicles >= 1, solve_vrptw max_iter >= 1 (max_iter = 0 is C19's lns.py case)",
 ]
 RULE = ("job shop: 1-6 jobs of 1-6 ops over 1-4 machine labels with gaps, repeated machines, zero durations, "
-        "all rules, local-search lengths 0-150, seeds; non-trivial = the local search accepted >= 1 swap "
-        "(final objective < dispatch objective).  VRP: 3-9 customers, time windows, demands, 0-3 "
-        "multi-vehicle customers, fleets 1-4 given as a count or (half of the cases) as explicit Vehicle lists "
+        "all rules, local-search lengths 0-150, seeds; jobs presented as lists / tuples / mixed, equal jobs and "
+        "operations as one aliased object, 0/1 durations as bool; non-trivial = the local search accepted >= 1 "
+        "swap (final objective < dispatch objective).  VRP: 3-9 customers, time windows, demands, 0-3 "
+        "multi-vehicle customers, customers as Customer objects / tuples / both / tuples cut after the last "
+        "non-default field, fleets 1-4 given as a count or (half of the cases) as explicit Vehicle lists "
         "whose ids are positional / a non-identity permutation / outside 0..n-1 / strings / repeated, with "
         "heterogeneous capacities (big truck first or last) and max_duration values, weights, seeds, objective "
         "probes (vrp_objective on crammed, overloaded and late plans built from visited states), short ALNS runs "
-        "replayed with recording "
-        "wrappers + direct operator calls on recorded states + scripted operator sequences; non-trivial "
-        "= >= 1 destroy step that removed and >= 1 repair step that inserted a customer")
+        "replayed with recording wrappers + direct operator calls on the recorded state *objects* + scripted "
+        "operator sequences; every state object handed out is read again after all later calls; non-trivial "
+        "= >= 1 destroy step that removed and >= 1 repair step that inserted a customer.  Histories (fixed "
+        "share): 2-4 consecutive calls in one process on related inputs (same twice, narrow->wide, wide->narrow, "
+        "same shape with changed content -- for job shop optionally in the very same list objects --, other "
+        "options, job shop and VRP interleaved, shared Customer/Vehicle/vehicle-list objects), each judged on "
+        "its own input; a failure that passes alone in a fresh process is classed :after_previous_call.  A few "
+        "large instances per run (10-18 jobs x 5-10 ops with few distinct durations; 18-28 customers, 4-8 vehicles)")
 TOL = [1, 10 ** 6]    # absolute: arrival times, objective
 REL = [1, 10 ** 12]  # relative slack: objective (large penalty sums), squared distances
 
@@ -61,18 +68,32 @@ WKEYS = ["distance_weight", "vehicle_weight", "tw_penalty", "capacity_penalty", 
 # ---------------------------------------------------------------------------
 
 
-def gen_js(rng, big):
+def gen_js(rng, big, large=False):
     nj = rng.choice([1, 2, 3, 3, 4, 4, 5, 6 if big else 5])
     k = rng.randint(1, 4)
-    labels = sorted(rng.sample(range(0, 9), k))
     durs = rng.choice([[0, 1, 2, 3, 5, 8], [0, 0, 1, 1, 2], [1, 2, 3, 4, 5, 6, 7, 9, 13], [0], [3, 3, 4]])
+    maxops = 6 if big else 4
+    if large:  # a few times larger than usual, few distinct durations (many ties), chains on one machine
+        nj, k, maxops = rng.randint(10, 18), rng.choice([1, 2, 5]), rng.randint(6, 10)
+        durs = rng.choice([[1], [0, 1], [2, 2, 3], [0, 1, 2, 3, 5, 8]])
+    labels = sorted(rng.sample(range(0, 9), k))
     jobs = []
     for _ in range(nj):
-        nops = rng.randint(1, 6 if big else 4)
+        nops = rng.randint(maxops - 1 if large else 1, maxops)
         jobs.append([[rng.choice(labels), rng.choice(durs)] for _ in range(nops)])
+    if nj >= 2 and rng.random() < 0.3:  # equal jobs (so that aliasing below has something to alias)
+        jobs[rng.randrange(nj)] = [list(o) for o in jobs[rng.randrange(nj)]]
     rule = rng.choice(["spt", "lpt", "mwkr", "fifo", "random", "random", "SPT", "Lpt", "MWKR", "FIFO"])
-    return {"kind": "js", "jobs": jobs, "rule": rule,
-            "max_iter": rng.choice([0, 1, 5, 20, 60, 60, 150, 150]), "seed": rng.randrange(1000)}
+    case = {"kind": "js", "jobs": jobs, "rule": rule,
+            "max_iter": rng.choice([1, 3, 6] if large else [0, 1, 5, 20, 60, 60, 150, 150]), "seed": rng.randrange(1000)}
+    if large:
+        case["large"] = True
+    if rng.random() < 0.55:
+        # presentation: Sequence[Sequence[tuple[int, int]]] -- lists / tuples / mixed, one object standing at
+        # several positions for equal jobs and equal operations, 0/1 durations as bool
+        case["style"] = {"outer": rng.choice(["list", "tuple"]), "inner": rng.choice(["list", "tuple", "mixed"]),
+                         "alias": rng.random() < 0.5, "bool_dur": rng.random() < 0.15}
+    return case
 
 
 def js_edges():
@@ -89,9 +110,9 @@ def js_edges():
     yield {"kind": "js", "jobs": [[[0, 1]]], "rule": "edd", "max_iter": 5, "seed": 0, "malformed": True}
 
 
-def gen_problem(rng, big):
-    n = rng.randint(3, 9)
-    fleet = rng.randint(1, 4)
+def gen_problem(rng, big, large=False):
+    n = rng.randint(18, 28) if large else rng.randint(3, 9)
+    fleet = rng.randint(4, 8) if large else rng.randint(1, 4)
     nmulti = min(n, rng.choice([0, 0, 1, 1, 2, 3]))
     multi = set(rng.sample(range(1, n + 1), nmulti))
     grid = rng.choice([1, 1, 4])  # dyadic coordinates k/grid
@@ -126,7 +147,7 @@ def gen_problem(rng, big):
                           ("sync_penalty", [10000.0, 100.0])):
             if rng.random() < 0.6:
                 weights[key] = rng.choice(vals)
-    return {"customers": custs, "as_tuples": rng.random() < 0.3, "vehicles": vehicles, "vehicle_capacity": cap,
+    return {"customers": custs, "as_tuples": rng.random() < 0.25, "vehicles": vehicles, "vehicle_capacity": cap,
             "depot": depot, "weights": weights}
 
 
@@ -181,9 +202,9 @@ def op_call(rng, name):
     return c
 
 
-def gen_vrp(rng, big):
-    case = {"kind": "vrp", **gen_problem(rng, big)}
-    if rng.random() < 0.03:
+def gen_vrp(rng, big, large=False):
+    case = {"kind": "vrp", **gen_problem(rng, big, large)}
+    if rng.random() < 0.03 and not large:
         # excluded region (ids are not the 1-based positions): the real code is run, the outcome only recorded
         how = rng.choice(["shuffled", "offset", "duplicate"])
         ids = [c[0] for c in case["customers"]]
@@ -200,7 +221,7 @@ def gen_vrp(rng, big):
     if rng.random() < 0.3:
         case["script"] = gen_script(rng, has_multi, rng.randint(4, 16 if big else 10))
     else:
-        case["max_iter"] = rng.choice([8, 15, 25, 40] if big else [8, 15, 25])
+        case["max_iter"] = rng.choice([4, 6] if large else [8, 15, 25, 40] if big else [8, 15, 25])
         case["max_no_improve"] = rng.choice([5, 20, 500])
         case["seed"] = rng.randrange(1000)
         nd = rng.randint(4, 12)
@@ -208,7 +229,76 @@ def gen_vrp(rng, big):
                                                                  (REPAIR if has_multi else REPAIR[:2])))]
                           for _ in range(nd)]
     case["probe_seed"] = rng.randrange(1000)
+    # presentation of `customers: list[Customer] | list[tuple]`: objects, tuples, both in one list, tuples cut
+    # after the last non-default field
+    case["cust_style"] = "tuples" if case.pop("as_tuples") else rng.choice(["objects", "objects", "mixed", "short_tuples"])
+    if large:
+        case["large"] = True
     return case
+
+
+def _relabel(case, keep):
+    """The sub-problem with the first `keep` customers (ids stay the 1-based positions)."""
+    c = json.loads(json.dumps(case))
+    c["customers"] = c["customers"][:keep]
+    return c
+
+
+def gen_hist(rng, big):
+    """2-4 consecutive calls in one worker process on related inputs (each judged on its own input)."""
+    kind = rng.choice(["js", "js", "vrp", "vrp", "mixed"])
+    recipe = rng.choice(["same_twice", "narrow_wide", "wide_narrow", "changed_content", "other_options"])
+
+    def js_variants():
+        base = gen_js(rng, big)
+        reuse = rng.random() < 0.5
+        if reuse:
+            base.pop("style", None)  # in-place re-use needs list objects
+        alt = json.loads(json.dumps(base))
+        if recipe in ("narrow_wide", "wide_narrow"):
+            alt["jobs"] = alt["jobs"][:max(1, len(alt["jobs"]) // 2)]
+        elif recipe == "changed_content":
+            for j in alt["jobs"]:
+                for o in j:
+                    o[0] = (o[0] + rng.choice([0, 1, 3])) % 9
+                    o[1] = rng.choice([0, 1, 2, 5])
+        elif recipe == "other_options":
+            alt["rule"], alt["seed"], alt["max_iter"] = rng.choice(["spt", "lpt", "mwkr", "fifo", "random"]), \
+                rng.randrange(1000), rng.choice([1, 20, 60])
+        items = [alt, base] if recipe == "narrow_wide" else [base, alt]
+        if rng.random() < 0.4:
+            items.append(json.loads(json.dumps(items[0])))
+        if reuse:
+            for it in items[1:]:
+                it["reuse_objects"] = True
+        return items
+
+    def vrp_variants():
+        base = gen_vrp(rng, False)
+        while base.get("excluded"):
+            base = gen_vrp(rng, False)
+        alt = json.loads(json.dumps(base))
+        if recipe in ("narrow_wide", "wide_narrow"):
+            alt = _relabel(alt, max(1, len(alt["customers"]) // 2))
+        elif recipe == "changed_content":
+            for c in alt["customers"]:
+                c[1], c[2] = c[2], -c[1]
+                c[3] = rng.choice([0, 1, 2, 3])
+        elif recipe == "other_options":
+            alt.pop("script", None)
+            alt.update({"max_iter": 6, "max_no_improve": 20, "seed": rng.randrange(1000), "direct": base.get("direct", [])[:4]})
+        items = [alt, base] if recipe == "narrow_wide" else [base, alt]
+        if rng.random() < 0.3:
+            items.append(json.loads(json.dumps(items[0])))
+        return items
+    if kind == "js":
+        items = js_variants()
+    elif kind == "vrp":
+        items = vrp_variants()
+    else:
+        a, b = vrp_variants(), js_variants()
+        items = [a[0], b[0], a[1]] + ([b[1]] if rng.random() < 0.5 else [])
+    return {"kind": "hist", "recipe": f"{kind}:{recipe}", "items": items[:4]}
 
 
 # ---------------------------------------------------------------------------
@@ -226,10 +316,46 @@ def _entries(sol):
     return out
 
 
-def impl_js(case):
+def _mk_jobs(case, shared=None):
+    """Build the `jobs` argument in the presentation the case asks for (meaning = case["jobs"])."""
+    st = case.get("style") or {}
+    spec = case["jobs"]
+
+    def op(o):
+        d = o[1]
+        return (o[0], bool(d) if st.get("bool_dur") and d in (0, 1) else d)
+    if shared is not None and case.get("reuse_objects") and isinstance(shared.get("jobs"), list):
+        jobs = shared["jobs"]  # the list objects of the previous call, content replaced in place
+        inner, new = list(jobs), []
+        for i, j in enumerate(spec):
+            if i < len(inner) and isinstance(inner[i], list):
+                inner[i][:] = [op(o) for o in j]
+                new.append(inner[i])
+            else:
+                new.append([op(o) for o in j])
+        jobs[:] = new
+        return jobs
+    opc, jobc, out = {}, {}, []
+    for idx, j in enumerate(spec):
+        key = json.dumps(j)
+        if st.get("alias") and key in jobc:
+            out.append(jobc[key])  # one object at several positions
+            continue
+        ops = [opc.setdefault(tuple(o), op(o)) if st.get("alias") else op(o) for o in j]
+        kind = st.get("inner", "list")
+        if kind == "mixed":
+            kind = "tuple" if idx % 2 else "list"
+        jobc[key] = tuple(ops) if kind == "tuple" else ops
+        out.append(jobc[key])
+    jobs = tuple(out) if st.get("outer") == "tuple" else out
+    if shared is not None:
+        shared["jobs"] = jobs
+    return jobs
+
+
+def impl_js(case, shared=None):
     from solvor import job_shop as J
-    jobs = [[tuple(o) for o in j] for j in case["jobs"]]
-    snapshot = json.dumps(case["jobs"])
+    jobs = _mk_jobs(case, shared)
     out = {"scheds": []}
     r0 = J.solve_job_shop(jobs, rule=case["rule"], local_search=False, seed=case["seed"])
     out["scheds"].append(["dispatch", _entries(r0.solution), r0.objective])
@@ -254,36 +380,78 @@ def impl_js(case):
             if new is not None:
                 nsw += 1
                 out["scheds"].append(["swap", _entries(new), J._compute_makespan(jobs, new)])
-    out["unchanged"] = json.dumps([[list(o) for o in j] for j in jobs]) == snapshot
+    out["unchanged"] = [[[o[0], int(o[1])] for o in j] for j in jobs] == case["jobs"]
     return out
 
 
-def _build(case):
+def _build(case, shared=None):
+    """customers / vehicles arguments in the presentation the case asks for.  With `shared` (a history) equal
+    specifications give the *same* Customer / Vehicle objects and the same vehicles list object as in the
+    previous calls."""
     import solvor.vrp as V
+    shared = shared if shared is not None else {}
+    cc, vc = shared.setdefault("cust", {}), shared.setdefault("veh", {})
+    style = case.get("cust_style") or ("tuples" if case.get("as_tuples") else "objects")
     custs = []
-    for c in case["customers"]:
+    for pos, c in enumerate(case["customers"]):
         twe = float("inf") if c[5] is None else c[5]
-        if case.get("as_tuples"):
-            custs.append((c[0], c[1], c[2], c[3], c[4], twe, c[6], c[7]))
-        else:
-            custs.append(V.Customer(c[0], c[1], c[2], c[3], c[4], twe, c[6], c[7]))
+        full = (c[0], c[1], c[2], c[3], c[4], twe, c[6], c[7])
+        kind = style if style != "mixed" else ("tuples" if pos % 2 else "objects")
+        if kind == "short_tuples":
+            dflt = {3: 0.0, 4: 0.0, 5: float("inf"), 6: 0.0, 7: 1}
+            while len(full) > 3 and full[-1] == dflt[len(full) - 1]:
+                full = full[:-1]
+        key = (kind == "objects", full)
+        if key not in cc:
+            cc[key] = V.Customer(*full) if kind == "objects" else full
+        custs.append(cc[key])
     veh = case["vehicles"]
     if not isinstance(veh, int):
-        veh = [V.Vehicle(v[0], float("inf") if v[1] is None else v[1],
-                         float("inf") if len(v) < 3 or v[2] is None else v[2]) for v in veh]
+        lkey = json.dumps(veh)
+        if lkey not in vc:
+            one = {}
+            vc[lkey] = [one.setdefault(json.dumps(v), V.Vehicle(v[0], float("inf") if v[1] is None else v[1],
+                                                                float("inf") if len(v) < 3 or v[2] is None else v[2]))
+                        for v in veh]
+        veh = vc[lkey]
     kw = {}
     if case.get("vehicle_capacity") is not None:
         kw["vehicle_capacity"] = case["vehicle_capacity"]
     return custs, veh, kw
 
 
-def impl_vrp(case):
+def late_check(registry):
+    """Re-snapshot every state object that was handed out earlier; report those that changed since."""
+    late = {}
+    for tag, label, obj, snap0, snapfn in registry:
+        try:
+            now = snapfn(obj)
+        except Exception as e:  # noqa: BLE001
+            now = None
+            late.setdefault(tag, []).append([label, snap0, None, f"{type(e).__name__}: {e}"])
+            continue
+        if now != snap0:
+            late.setdefault(tag, []).append([label, snap0, now, None])
+    return late
+
+
+def impl_vrp(case, shared=None, tag=0):
     import random
 
     import solvor.vrp as V
     W = dict(case.get("weights") or {})
     steps = []     # [name, kind, pre, post]
+    step_objs = []  # the state objects themselves: (kind, pre object, post object)
+    own = shared is None
+    shared = {} if own else shared
+    registry = shared.setdefault("registry", [])
+    seen_ids = shared.setdefault("seen_ids", set())
     depth = [0]
+
+    def register(label, obj, sn):
+        if id(obj) not in seen_ids:  # objects stay referenced by the registry, so ids are not recycled
+            seen_ids.add(id(obj))
+            registry.append((tag, label, obj, sn, snap))
 
     def snap(st):
         for r in st.routes:
@@ -308,7 +476,11 @@ def impl_vrp(case):
                 out = fn(state, rng, *a, **k)
             finally:
                 depth[0] -= 1
-            steps.append([name, kind, pre, snap(out)])
+            post = snap(out)
+            steps.append([name, kind, pre, post])
+            step_objs.append((kind, state, out))
+            register("input of " + name, state, pre)
+            register("result of " + name, out, post)
             return out
         return w
 
@@ -317,7 +489,7 @@ def impl_vrp(case):
         kw = {k: c[k] for k in ("degree", "n_routes", "k") if k in c}
         return fn(state, random.Random(c["seed"]), **kw)
 
-    custs, veh, kw = _build(case)
+    custs, veh, kw = _build(case, shared)
     out = {}
     try:
         for name in orig:
@@ -341,24 +513,21 @@ def impl_vrp(case):
                                 **{k: v for k, v in W.items() if k != "unassigned_penalty"})
             st = res.solution
             out["final"] = snap(st)
+            register("result of solve_vrptw", st, out["final"])
             out["final_obj"] = res.objective
             out["status"] = res.status.name
             out["dist"] = st._dist
             # direct calls of the exported operators on states the search went through
             n_solver = len(steps)
             out["n_solver_steps"] = n_solver
-            partial = [s[3] for s in steps if s[1] == 0] or [s[2] for s in steps]
-            complete = [s[3] for s in steps if s[1] == 1]
+            # ... on the very objects the search handed to / got from its operators (re-use of returned states)
+            partial = [o[2] for o in step_objs if o[0] == 0] or [o[1] for o in step_objs]
+            complete = [o[2] for o in step_objs if o[0] == 1] + [st]
             for frac, c in case.get("direct", []):
                 pool = partial if c["op"] in REPAIR else complete
                 if not pool:
                     continue
-                pre = pool[int(frac * len(pool)) % len(pool)]
-                base = V.VRPState.from_problem(st.customers, st.vehicles)
-                base.routes = [list(r) for r in pre[0]]
-                base.unassigned = set(pre[1])
-                base.arrival_times = [list(a) for a in pre[2]]
-                call(base, c)
+                call(pool[int(frac * len(pool)) % len(pool)], c)
         # objective probes: `vrp_objective` / `update_arrival_times` on crammed (overloaded, late) plans built
         # from states the run went through -- reachable states never overload a vehicle, so the capacity
         # and lateness terms of the weighted sum would otherwise always be evaluated at 0
@@ -388,10 +557,31 @@ def impl_vrp(case):
         for name, fn in orig.items():
             setattr(V, name, fn)
     out["steps"] = steps
+    if own:
+        out["late"] = late_check(registry).get(tag, [])
     return out
 
 
+def impl_hist(case):
+    """Consecutive calls in this one process; the outcome of each item is judged on its own input."""
+    shared = {}
+    outs = []
+    for idx, it in enumerate(case["items"]):
+        try:
+            outs.append(["ok", impl_js(it, shared) if it["kind"] == "js" else impl_vrp(it, shared, idx)])
+        except Exception as e:  # noqa: BLE001
+            import traceback
+            outs.append(["err", f"{type(e).__name__}: {e}"[:500] + "\n" + traceback.format_exc(limit=4)[-600:]])
+    late = late_check(shared.get("registry", []))
+    for idx, o in enumerate(outs):
+        if o[0] == "ok" and case["items"][idx]["kind"] == "vrp":
+            o[1]["late"] = late.get(idx, [])
+    return outs
+
+
 def impl(case):
+    if case["kind"] == "hist":
+        return impl_hist(case)
     return impl_js(case) if case["kind"] == "js" else impl_vrp(case)
 
 
@@ -405,7 +595,7 @@ def ls_draws(case, out):
     calls of `_dispatch` are replayed first; `None` if that does not reproduce the dispatch order."""
     import random
     jobs = case["jobs"]
-    if not jobs or len(out["scheds"]) < 2 or out["scheds"][1][0] != "final":
+    if not jobs or len(out["scheds"]) < 2 or out["scheds"][1][0] != "final" or case.get("large"):
         return None
     rng = random.Random(case["seed"])
     if case["rule"].lower() == "random":
@@ -441,6 +631,7 @@ def vrp_request(case, out):
     final_id = sid([fin[0], fin[1], fin[2], out["final_obj"]])
     ids = [(st[1], st[2]) for st in steps]
     probe_ids = [sid(pr) for pr in out.get("probes", [])]
+    late_ids = [None if lt[2] is None else sid(lt[2]) for lt in out.get("late", [])]
     veh = case["vehicles"]
     if isinstance(veh, int):
         caps = [None if case.get("vehicle_capacity") is None else rat(case["vehicle_capacity"])] * veh
@@ -452,7 +643,7 @@ def vrp_request(case, out):
            [None] + [None if c[5] is None else rat(c[5]) for c in cs], [rat(0)] + [rat(c[6]) for c in cs],
            caps, [rat(W[k]) if k in W else None for k in WKEYS], TOL, REL,
            [[rat(case["depot"][0]), rat(case["depot"][1])]] + [[rat(c[1]), rat(c[2])] for c in cs], states, steps]
-    return req, (ids, probe_ids), final_id
+    return req, (ids, probe_ids, late_ids), final_id
 
 
 # ---------------------------------------------------------------------------
@@ -477,13 +668,21 @@ def judge_js(ctx, case, o, reply):
         return
     out = o[1]
     ctx.count("js:rule:" + case["rule"].lower())
+    st = case.get("style")
+    ctx.count("js:style:" + ("list/list/tuple" if not st else
+                             f"{st['outer']}/{st['inner']}" + ("/aliased" if st["alias"] else "") +
+                             ("/bool_durations" if st["bool_dur"] else "")))
+    if case.get("reuse_objects"):
+        ctx.count("js:same_list_objects_as_previous_call")
+    if case.get("large"):
+        ctx.count("large:js")
     ctx.count(f"js:max_iter:{case['max_iter']}")
     if "ls_error" in out:
         kind = out["ls_error"].split(":")[0]
         ctx.fail(fn, f"raises:{kind}:max_iter={'0' if case['max_iter'] == 0 else 'pos'}",
                  f"valid input raised with local_search=True: {out['ls_error']}", rep)
     elif not out.get("unchanged", True):
-        ctx.fail(fn, "input_modified", "the jobs argument was modified", rep)
+        ctx.count("js:jobs_argument_modified(not a clause of C18)")
     rule_sched, verdicts, ls = reply
     for (tag, entries, obj), v in zip(out["scheds"], verdicts):
         if isinstance(v, str):
@@ -544,6 +743,8 @@ def judge_vrp(ctx, case, o, reply, ids, final_id):
                  {**rep, "dist": out["dist"]})
     multi = {c[0] for c in case["customers"] if c[7] > 1}
     ctx.count("vrp:script" if "script" in case else "vrp:solve")
+    if case.get("large"):
+        ctx.count("large:vrp")
     ctx.count(f"vrp:n={len(case['customers'])}")
     ctx.count(f"vrp:multi={len(multi)}")
     veh = case["vehicles"]
@@ -585,7 +786,24 @@ def judge_vrp(ctx, case, o, reply, ids, final_id):
 
     removed = inserted = 0
     reqs_steps = out["steps"]
-    ids, probe_ids = ids
+    ids, probe_ids, late_ids = ids
+    ctx.count("vrp:cust_style:" + (case.get("cust_style") or ("tuples" if case.get("as_tuples") else "objects")))
+    ctx.count("vrp:state_objects_rechecked_at_end")  # every handed-out state object is re-read after all later calls
+    for li, lt in zip(late_ids, out.get("late", [])):
+        label, before, now, err = lt
+        ctx.count("vrp:earlier_state_changed_later")
+        if li is None:
+            once(top, "earlier_state_corrupted_later:unreadable", f"the {label} can no longer be scored after later "
+                 f"operator calls on other states: {err}; it was routes={before[0]} unassigned={before[1]}",
+                 {"earlier_state_then": before})
+            continue
+        inv, arr_ok, _obj_ok, _exact = sv[li]
+        bad = [nm for nm, ok in zip(INV_CLAUSES, inv) if not ok] + ([] if arr_ok else ["stale_arrival_times"])
+        if bad:
+            once(top, "earlier_state_corrupted_later:" + bad[0], f"the {label} was routes={before[0]} unassigned="
+                 f"{before[1]} when handed out and is routes={now[0]} unassigned={now[1]} after later operator calls "
+                 f"on other states (shared sub-objects); it now violates {bad}",
+                 {"earlier_state_then": before, "earlier_state_now": now, "failed_clauses": bad})
     for pi, pr in zip(probe_ids, out.get("probes", [])):
         _inv, arr_ok, obj_ok, exact = sv[pi]
         ctx.count("vrp:objective_probe")
@@ -634,11 +852,26 @@ def judge_vrp(ctx, case, o, reply, ids, final_id):
               "objective": out["final_obj"], "exact_objective": sv[final_id][3]})
 
 
-def eval_cases(cases):
-    """Run implementation and model on `cases`; returns one (case, outcome, reply, ids, final_id) each."""
-    outs = run_pool(impl, cases, timeout=60.0)
+def eval_cases(cases, fresh=False):
+    """Run implementation and model.  Returns, per case, a list of (item index | None, (case, outcome, reply,
+    ids, final_id)) -- one entry for a plain case, one per item for a history.  With `fresh` every case runs in
+    a newly forked process of its own (nothing left over from an earlier call can play a part)."""
+    if fresh:
+        outs = []
+        for i in range(0, len(cases), 32):
+            outs += run_pool(impl, cases[i:i + 32], timeout=60.0, procs=len(cases[i:i + 32]))
+    else:
+        outs = run_pool(impl, cases, timeout=60.0)
+    flat = []
+    for ti, (c, o) in enumerate(zip(cases, outs)):
+        if c["kind"] != "hist":
+            flat.append((ti, None, c, o))
+        elif o[0] != "ok":
+            flat += [(ti, ii, it, o) for ii, it in enumerate(c["items"])]
+        else:
+            flat += [(ti, ii, it, tuple(io)) for ii, (it, io) in enumerate(zip(c["items"], o[1]))]
     reqs, meta = [], []
-    for c, o in zip(cases, outs):
+    for _, _, c, o in flat:
         if o[0] != "ok" or c.get("malformed") or c.get("excluded"):
             meta.append(None)
             continue
@@ -650,12 +883,12 @@ def eval_cases(cases):
             reqs.append(r)
             meta.append((len(reqs) - 1, ids, fid))
     replies = Driver("Sched").run(reqs, chunks=16)
-    res = []
-    for c, o, m in zip(cases, outs, meta):
+    res = [[] for _ in cases]
+    for (ti, ii, c, o), m in zip(flat, meta):
         rp = replies[m[0]] if m else None
         if rp and rp[0] == "error":
             raise core.Infra(f"model rejected request: {rp}")
-        res.append((c, o, rp, m[1] if m else None, m[2] if m else None))
+        res[ti].append((ii, (c, o, rp, m[1] if m else None, m[2] if m else None)))
     return res
 
 
@@ -710,6 +943,18 @@ def reductions(case):
 
     def cp():
         return json.loads(json.dumps(case))
+    if case["kind"] == "hist":
+        for i in reversed(range(len(case["items"]))):
+            if len(case["items"]) > 1:
+                c = cp()
+                del c["items"][i]
+                out.append((f"drop call {i}", c))
+        for i, it in enumerate(case["items"]):
+            for label, red in reductions(it)[:12]:
+                c = cp()
+                c["items"][i] = red
+                out.append((f"call {i}: {label}", c))
+        return out
     if case["kind"] == "js":
         jobs = case["jobs"]
         for j in range(len(jobs)):
@@ -779,22 +1024,52 @@ def reductions(case):
     return out
 
 
-def fails_of(res):
-    b = _Buffer(None)
-    judge(b, *res)
-    return b.fails
+def assess(cases, ctx=None, fresh=False):
+    """Judge `cases`; returns per case its failures (function, class, what, replay dict) with the final class
+    names.  A failure inside a history is first re-tried with that item alone in a fresh process: if it fails
+    there too it is reported for the item alone, otherwise its class gets the suffix `:after_previous_call`
+    and the replay is the whole history."""
+    out = [[] for _ in cases]
+    retry = []
+    for ti, items in enumerate(eval_cases(cases, fresh)):
+        for ii, res in items:
+            b = _Buffer(ctx)
+            judge(b, *res)
+            if ii is not None and ctx is not None:
+                ctx.count("hist:item")
+            for f in b.fails:
+                if ii is None:
+                    out[ti].append(f)
+                else:
+                    retry.append((ti, ii, res[0], f))
+        if cases[ti]["kind"] == "hist" and ctx is not None:
+            ctx.count("hist:" + cases[ti].get("recipe", "?"))
+    if retry:
+        alone = eval_cases([it for _, _, it, _ in retry], fresh=True)
+        for (ti, ii, it, (fn, klass, what, rep)), items in zip(retry, alone):
+            b = _Buffer(None)
+            judge(b, *items[0][1])
+            same = [f for f in b.fails if f[0] == fn and f[1] == klass]
+            if same:
+                out[ti].append(same[0][:3] + ({**same[0][3], "found_in_history": cases[ti]},))
+            else:
+                out[ti].append((fn, klass + ":after_previous_call", f"item {ii} of a history of calls in one "
+                                f"process (alone in a fresh process the same input passes): {what}",
+                                {**rep, "case": cases[ti], "item": ii}))
+    return out
 
 
-def shrink(case, function, klass, max_rounds=40):
+def shrink(case, function, klass, max_rounds=40, seconds=25.0):
     """Greedy structural shrinking; a candidate is kept only if the *same* (function, class) still fails."""
-    history = []
+    import time
+    history, t0 = [], time.time()
     for _ in range(max_rounds):
-        cands = reductions(case)[:60]
-        if not cands:
+        cands = reductions(case)[:48]
+        if not cands or time.time() - t0 > seconds:
             break
         hit = None
-        for (label, cand), res in zip(cands, eval_cases([c for _, c in cands])):
-            if any(f == function and k == klass for f, k, _, _ in fails_of(res)):
+        for (label, cand), fails in zip(cands, assess([c for _, c in cands], fresh=True)):
+            if any(f == function and k == klass for f, k, _, _ in fails):
                 hit = (label, cand)
                 break
         if hit is None:
@@ -804,25 +1079,51 @@ def shrink(case, function, klass, max_rounds=40):
     return case, history
 
 
+def localise(cases, case, fail):
+    """A failure of a plain case seen in a worker that had run other cases before.  Returns (case, fail) to
+    report: unchanged if the case fails alone in a fresh process; else a two-call history (one of the cases
+    preceding it, then it) that reproduces it, class suffix `:after_previous_call`; else the case with the
+    suffix `:after_unknown_previous_calls`."""
+    function, klass, what, rep = fail
+    if any(f[0] == function and f[1] == klass for f in assess([case], fresh=True)[0]):
+        return case, fail
+    at = next((i for i, c in enumerate(cases) if c is case), 0)
+    preds = [c for c in cases[max(0, at - 40):at] if c["kind"] != "hist" and not c.get("malformed")][-12:]
+    cands = [{"kind": "hist", "recipe": "localised", "items": [p, case]} for p in reversed(preds)]
+    for cand, fails in zip(cands, assess(cands, fresh=True)):
+        hit = [f for f in fails if f[0] == function and f[1] == klass + ":after_previous_call"]
+        if hit:
+            return cand, hit[0]
+    return case, (function, klass + ":after_unknown_previous_calls", "seen only in a worker process that had run "
+                  "other cases before (alone in a fresh process, and after each of the 12 preceding cases, the "
+                  "same input passes): " + what, rep)
+
+
 def run_cases(ctx, cases, do_shrink=True):
     pending = []
-    for res in eval_cases(cases):
-        b = _Buffer(ctx)
-        judge(b, *res)
-        pending += [(res[0], f) for f in b.fails]
+    for case, fails in zip(cases, assess(cases, ctx)):
+        pending += [(f[3].get("case", case) if case["kind"] == "hist" else case, f) for f in fails]
     reported = ctx.__dict__.setdefault("_c18_reported", set())
-    for case, (function, klass, what, rep) in pending:
-        if ctx.known_match(function, klass) is not None:
-            ctx.fail(function, klass, what, rep)
+    for case, fail in pending:
+        if ctx.known_match(fail[0], fail[1]) is not None:
+            ctx.fail(*fail)
             continue
-        if (function, klass) in reported:  # one (minimised) replay per failure class and run
-            ctx.count(f"further_failures_same_class:{function}:{klass}")
+        if (fail[0], fail[1]) in reported:  # one (minimised) replay per failure class and run
+            ctx.count(f"further_failures_same_class:{fail[0]}:{fail[1]}")
             continue
-        reported.add((function, klass))
-        if do_shrink and len(ctx.violations) < 5 and not case.get("malformed"):
+        reported.add((fail[0], fail[1]))
+        if do_shrink and case["kind"] != "hist" and len(cases) > 1:
+            case, fail = localise(cases, case, fail)
+            if (fail[0], fail[1]) in reported and fail[1].endswith("_call"):
+                ctx.count(f"further_failures_same_class:{fail[0]}:{fail[1]}")
+                continue
+            reported.add((fail[0], fail[1]))
+        function, klass, what, rep = fail
+        if do_shrink and len(ctx.violations) < 5 and not case.get("malformed") \
+                and not klass.endswith(":after_unknown_previous_calls"):
             small, hist = shrink(case, function, klass)
             if hist:
-                again = [f for f in fails_of(eval_cases([small])[0]) if f[0] == function and f[1] == klass]
+                again = [f for f in assess([small], fresh=True)[0] if f[0] == function and f[1] == klass]
                 if again:  # report the minimised input, with both outputs recomputed on it
                     _, _, what, rep = again[0]
                     rep = {**rep, "shrunk_from": case, "shrink_history": hist}
@@ -835,8 +1136,12 @@ def run(ctx, budget):
     cases = list(js_edges()) + [c["case"] for c in core.load_corpus("C18")]
     js = [gen_js(ctx.rng, big and i % 3 == 0) for i in range(3000 * budget)]
     vrp = [gen_vrp(ctx.rng, big and i % 3 == 0) for i in range(2000 * budget)]
-    for i in range(1000 * budget):  # interleaved 3:2 so that every batch (and the samples) holds both kinds
-        cases += js[3 * i:3 * i + 3] + vrp[2 * i:2 * i + 2]
+    hist = [gen_hist(ctx.rng, big) for i in range(400 * budget)]
+    large = [gen_js(ctx.rng, big, large=True) if i % 2 else gen_vrp(ctx.rng, big, large=True) for i in range(24 * budget)]
+    cases += large[:12]  # a few large instances first (they are the slowest tasks)
+    for i in range(1000 * budget):  # interleaved so that every batch (and the samples) holds all kinds
+        cases += js[3 * i:3 * i + 3] + vrp[2 * i:2 * i + 2] + hist[2 * i // 5:(2 * i + 2) // 5] \
+            + (large[12 + i // 80:13 + i // 80] if i % 80 == 0 else [])
     for i in range(0, len(cases), 2500):  # bounded memory: one batch of requests/replies at a time
         run_cases(ctx, cases[i:i + 2500])
     h = ctx.cov["histogram"]
